@@ -12,18 +12,53 @@ use crate::common::{is_thorough, ExpSpec};
 pub struct C02;
 
 impl Checker for C02 {
-    fn check(&self, _cfg: &Cfg, ops: &[Op], ex: &Exec) -> Vec<(String, String)> {
-        let mut v = o::o_result("C02", ops, ex);
-        if !v.is_empty() {
-            return v;
+    fn check(&self, cfg: &Cfg, ops: &[Op], ex: &Exec) -> Vec<(String, String)> {
+        let mut v = check_one(ops, ex);
+        // one retryable ("interrupted") storage error at every read / write device call of the last operation: where the
+        // library absorbs it (write_all / read_exact / internal metadata I/O repeat the call) the operation must be
+        // indistinguishable from the undisturbed one: same oracles
+        if v.is_empty()
+            && ex.panic.is_none()
+            && cfg.short == Short::Exact
+            && ops.len() <= 2 + 2
+            && ex.calls_last <= 800
+            && (cfg.name.ends_with("-1h") || cfg.name.contains("-low2"))
+        {
+            for k in 1..=ex.calls_last {
+                let plan = harness::sess::Plan { fault: Some((k, harness::dev::ID_INTR)), ..Default::default() };
+                let sx = harness::sess::run(cfg, ops, &plan);
+                let Some(fd) = sx.fired else { continue };
+                // (the storage contract documents retryable errors for read and write only)
+                if fd.in_drop || !matches!(fd.kind, harness::dev::Kind::Read | harness::dev::Kind::Write) {
+                    continue;
+                }
+                // the caller was told: nothing to demand here
+                if !matches!(sx.outs.last(), Some(Ok(harness::sess::Out::Progress { err: None, .. })) | Some(Ok(harness::sess::Out::Bytes(_))) | Some(Ok(harness::sess::Out::Unit)) | Some(Ok(harness::sess::Out::Pos(_))) | Some(Ok(harness::sess::Out::Count(_)))) {
+                    continue;
+                }
+                for (sig, msg) in check_one(ops, &sx) {
+                    let sig = sig.replace("C02/", "C02/one-retryable-error/");
+                    if !v.iter().any(|(s, _)| *s == sig) {
+                        v.push((sig, format!("{msg} [device call {k} ({:?}) of the last operation answered with a retryable error]", fd.kind)));
+                    }
+                }
+            }
         }
-        v.extend(o::o_cursor("C02", ops, ex));
-        v.extend(o::o_tree_suffix("C02", ex, false));
-        v.extend(o::o_extents("C02", ex));
-        // allocation invariants (a file's clusters are marked used, chains do not cross, no cluster is lost)
-        v.extend(o::o_invariants("C02", ops, ex).into_iter().filter(|(s, _)| s.contains("/I1/") || s.contains("/I2/")));
         v
     }
+}
+
+fn check_one(ops: &[Op], ex: &Exec) -> Vec<(String, String)> {
+    let mut v = o::o_result("C02", ops, ex);
+    if !v.is_empty() {
+        return v;
+    }
+    v.extend(o::o_cursor("C02", ops, ex));
+    v.extend(o::o_tree_suffix("C02", ex, false));
+    v.extend(o::o_extents("C02", ex));
+    // allocation invariants (a file's clusters are marked used, chains do not cross, no cluster is lost)
+    v.extend(o::o_invariants("C02", ops, ex).into_iter().filter(|(s, _)| s.contains("/I1/") || s.contains("/I2/")));
+    v
 }
 
 pub fn prefix() -> Vec<Op> {
@@ -133,6 +168,17 @@ pub fn specs(tier: &str) -> Vec<ExpSpec> {
     }
     // FAT32 cluster numbers above 0xFFFF
     v.push(ExpSpec::new(vol::t32_high(), alphabet(512, false), if th { 4 } else { 3 }).with_prefix(prefix()));
+    // clean FAT32 volumes whose (advisory, "not necessarily correct") fs-info free count is wrong: too low / too high
+    {
+        for (tag, cnt) in [("fsi-count0", 0u32), ("fsi-count1", 1), ("fsi-count-high", 60_000)] {
+            let mut spec = vol::tiny_spec(FatType::Fat32);
+            spec.free = Some(8);
+            spec.name = format!("t32-f8-{tag}");
+            let (mut img, cands) = vol::build(&spec).expect("fs-info volume");
+            vol::set_fsinfo(&mut img, Some(cnt), None);
+            v.push(ExpSpec::new(vol::cfg_from(&spec.name, img, cands), alphabet(512, false), if th { 3 } else { 2 }).with_prefix(prefix()));
+        }
+    }
     // the highest cluster numbers of FAT12 / FAT16 (values just below the reserved range of the width)
     for (w, name) in [(12u8, "m12-top"), (16, "m16-top")] {
         v.push(ExpSpec::new(crate::c10::mk_top(w, 8, name), alphabet(512, false), if th { 4 } else { 3 }).with_prefix(prefix()));
